@@ -108,8 +108,8 @@ def deadzone_margin(m, D):
     return abs(abs(D) - m['i0'] / m['imax'])
 
 
-def load_value(spec, p, v, t):
-    c = spec['load']['coef'] + [0.0] * 5
+def load_value(spec, p, v, t, coef=None):
+    c = list(coef if coef is not None else spec['load']['coef']) + [0.0] * 5
     return c[0] + c[1] * p + c[2] * v + c[3] * t + c[4] * v * abs(v)
 
 
@@ -120,7 +120,8 @@ def oracle_C02(spec, tr):
     E = tr['els']
     last = tr['n'] - 1
     sT = max(vscale(tr, 'driving torque'), vscale(tr, 'load torque'))
-    calls = {c[3] - 1: c for c in tr['load_log']}      # instant index -> (pos, speed, time)
+    calls = {c[3] - 1: c for c in tr['load_log']}      # instant index -> (pos, speed, time, -, function identity)
+    in_force = sim.loads_at(spec, tr)
     for j in range(n):
         D = E[0]['pwm'][j]
         w = E[0]['angular speed'][j]
@@ -151,12 +152,15 @@ def oracle_C02(spec, tr):
             out.append((f'the load function was not evaluated at instant {j}', {}))
             return out
         p, v, t = c[0], c[1], c[2]
+        if len(c) > 4 and c[4] != in_force[j][1]:
+            out.append((f'instant {j} was computed with a load function that the user had replaced before that run', {}))
+            return out
         rp, rv, rt = E[last]['angular position'][j], E[last]['angular speed'][j], tr['time'][j]
         if not (near(p, rp, max(abs(rp), vscale(tr, 'angular position'))) and near(v, rv, vscale(tr, 'angular speed'))
                 and near(t, rt, max(1e-9, abs(rt)))):
             out.append((f'load function evaluated at (pos, speed, time) = {(p, v, t)} but instant {j} records {(rp, rv, rt)}', {}))
             return out
-        want = load_value(spec, rp, rv, rt)
+        want = load_value(spec, rp, rv, rt, in_force[j][0])
         if not near(E[last]['load torque'][j], want, max(sT, abs(want))):
             out.append((f'load torque of the last element at instant {j} is not the load function at its recorded state',
                         {'got': E[last]['load torque'][j], 'want': want}))
@@ -451,6 +455,12 @@ def dynamics_spec(rng, ctx, *, sl_bias=0.35, schedule=True, kind=None, same_solv
         op['stop'] = random_stop(rng, spec)
         ops = [op]
     spec['ops'] = ops
+    if kind in ('split', 'reset') and rng.random() < 0.2:
+        # the user replaces the load function between two runs on the same powertrain and solver
+        c0 = spec['load']['coef']
+        newc = [c0[0] * rng.choice([0.5, 2, -1]) + rng.choice([0, 0.25]), c0[1], c0[2] * rng.choice([1, 0, 2]), c0[3], 0.0 if len(c0) < 5 else c0[4]]
+        at = len(ops) - 1
+        ops.insert(at, {'op': 'load', 'coef': newc})
     if redeclare is None:
         redeclare = rng.random() < 0.15
     if redeclare:
@@ -467,7 +477,9 @@ def inject_redeclare(rng, spec, ops):
         return False
     k = rng.choice(gears)
     final = list(spec['rels'][k])
-    if rng.random() < 0.5:
+    no_force = all(spec['elems'][i - 1].get('module') is None for i in final[1:3] if i >= 1)
+    if rng.random() < 0.6 and no_force:
+        # (a gear with a module but no mating role cannot be simulated: its tooth force is computable but undefined)
         spec['rels'][k] = ['joint', final[1], final[2]]
     else:
         spec['rels'][k] = final[:3] + [rng.choice([1.0, gen.dy(rng, 0.3, 1.0, 4)])]
@@ -486,6 +498,9 @@ def random_stop(rng, spec, thr_si=None):
     idx = rng.randrange(n_el)
     if s == 'enc':
         v = thr_si if thr_si is not None else rng.uniform(-3, 6)
+        if v >= 0 and rng.random() < 0.3:
+            # the threshold is an Angle (the non-negative sub-kind of AngularPosition), in any angle unit
+            return {'sensor': 'enc', 'idx': idx, 'op': op, 'kind': 'Angle', 'thr': gen.in_unit(rng, 'Angle', v, True)}
         return {'sensor': 'enc', 'idx': idx, 'op': op, 'thr': gen.in_unit(rng, 'AngularPosition', v, True)}
     if s == 'tac':
         v = thr_si if thr_si is not None else rng.uniform(-5, 20)
@@ -548,8 +563,13 @@ def eval_dynamics(ctx, specs, props, with_model=True, c17=False):
         tr, b = sim.simulate(spec)
         traces.append((spec, tr, b))
         if tr['build_error'] is None and with_model and ctx.driver.available:
-            # declarations -> assembly -> simulation all inside the model
-            lines.append(sim.pipe_line(spec, tr, b))
+            if sim.uniform_cfg(spec):
+                # declarations -> assembly -> simulation all inside the model
+                lines.append(sim.pipe_line(spec, tr, b))
+            else:
+                # the controller / load function changes between runs: the model follows in lock-step
+                tr['_lockstep'] = sim.lockstep_requests(spec, tr)
+                lines.extend(ln for _, ln in tr['_lockstep'])
     answers = ctx.driver.ask(lines) if lines else []
     k = 0
     for spec, tr, b in traces:
@@ -577,7 +597,20 @@ def eval_dynamics(ctx, specs, props, with_model=True, c17=False):
                 viol = ORACLES[pid](spec, tr)
             for msg, det in viol[:1]:
                 ctx.violation(case, {'why': msg, **det, 'property': pid})
-        if with_model and ctx.driver.available:
+        if with_model and ctx.driver.available and '_lockstep' in tr:
+            reqs = tr.pop('_lockstep')
+            diff = None
+            for (j, _), ans in zip(reqs, answers[k:k + len(reqs)]):
+                diff = diff or sim.compare_step(tr, j, ans)
+            k += len(reqs)
+            ctx.count('model in lock-step (configuration changes between runs)')
+            if diff is not None:
+                why = near_threshold(spec, tr)
+                if why is not None:
+                    ctx.count('history excluded: ' + why)
+                else:
+                    ctx.mismatch(case, diff, 'lock-step')
+        elif with_model and ctx.driver.available:
             cm, st, recs = sim.parse_pipe(answers[k], spec, tr)
             tr['gears_in_model'] = True
             k += 1
@@ -599,6 +632,9 @@ def run_dynamics(ctx, props, sl_bias=0.35, quick=120, thorough=8000):
         specs = [dynamics_spec(ctx.rng, ctx, sl_bias=sl_bias) for _ in range(min(batch, n - done))]
         eval_dynamics(ctx, specs, props)
         done += len(specs)
+    # relations re-declared (joint -> mating, or another efficiency) after the Powertrain and the Solver were built
+    specs = [dynamics_spec(ctx.rng, ctx, sl_bias=sl_bias, redeclare=True) for _ in range(ctx.budget(20, 400))]
+    eval_dynamics(ctx, specs, props)
     # long runs (thorough: many, quick: a few): oracles on every instant, model in lock-step on sampled instants
     nlong = ctx.budget(6, 400) * ctx.boost
     for _ in range(nlong):
@@ -1002,6 +1038,9 @@ def run_C16(ctx):
             var = {'enc': 'angular position', 'tac': 'angular speed', 'amp': 'electric current'}[st['sensor']]
             q = b0.E[st['idx'] % len(b0.E) if st['sensor'] != 'amp' else 0].time_variables[var][k]
             st['thr'] = [q.value, q.unit]
+            st.pop('kind', None)
+            if st['sensor'] == 'enc' and q.value >= 0 and rng.random() < 0.3:
+                st['kind'] = 'Angle'
             st['op'] = ['ge', 'le', 'eq', 'gt', 'lt'][len(specs) % 5]      # every operator gets its exact hits
             st['exact'] = True
             op['stop'] = st
@@ -1016,6 +1055,9 @@ def run_C16(ctx):
         else:
             thr = max(series) + abs(max(series)) * 0.1 + 1.0
         kind = {'enc': 'AngularPosition', 'tac': 'AngularSpeed', 'amp': 'Current'}[st['sensor']]
+        st.pop('kind', None)
+        if st['sensor'] == 'enc' and thr >= 0 and rng.random() < 0.35:
+            kind = st['kind'] = 'Angle'
         st['thr'] = gen.in_unit(rng, kind, thr, True)
         op['stop'] = st
         spec['_unstopped'] = True
